@@ -18,6 +18,7 @@ import (
 	"os"
 	"sort"
 	"strconv"
+	"strings"
 
 	"github.com/utreexo/utreexo"
 )
@@ -46,13 +47,17 @@ type driveEvent struct {
 	Td        [][2]uint64 `json:"td"`
 	Ndel      [][]any     `json:"ndel"`
 	Nadd      [][]any     `json:"nadd"`
+	Op        string      `json:"op,omitempty"` // pop: vrem | ingest | prune
+	Cached    []int       `json:"cached"`       // stored: the leaves in the instance's index
+	Nodes     [][]any     `json:"nodes"`        // stored: every stored [row, idx, hash]
+	Prem      [][]any     `json:"prem"`         // mod: per partial instance [name, [added slots it was asked to remember]]
 	Rem       []int       `json:"rem"`   // mod: slots the light client asked to remember
 	Lossy     bool        `json:"lossy"` // hold: taken after undoing a block that overwrote an empty root (known finding C08-F1)
 }
 
 func newEv(ev string, h, i int) driveEvent {
 	return driveEvent{Ev: ev, H: h, I: i, D: []int{}, Roots: []string{}, Pos: [][3]uint64{}, Untracked: []int{},
-		S: []int{}, T: [][2]uint64{}, P: []string{}, Td: [][2]uint64{}, Ndel: [][]any{}, Nadd: [][]any{}, Rem: []int{}}
+		S: []int{}, T: [][2]uint64{}, P: []string{}, Td: [][2]uint64{}, Ndel: [][]any{}, Nadd: [][]any{}, Rem: []int{}, Cached: []int{}, Nodes: [][]any{}, Prem: [][]any{}}
 }
 
 type driveWorld struct {
@@ -286,6 +291,10 @@ func (w *driveWorld) run(maxN, blocks int) {
 		{Name: "map.full.0", Kind: KMapFull, Rows: 0, M: newMap(true, 0)},
 		{Name: "map.part.63", Kind: KMapPart, Rows: 63, M: newMap(false, 63), cached: map[int]bool{}},
 		{Name: "map.part.0", Kind: KMapPart, Rows: 0, M: newMap(false, 0), cached: map[int]bool{}},
+		// partial forests that verify only what they do not remember yet, and prune,
+		// ingest and verify-with-remember between blocks
+		{Name: "map.free.63", Kind: KMapPart, Rows: 63, M: newMap(false, 63), cached: map[int]bool{}},
+		{Name: "map.free.0", Kind: KMapPart, Rows: 0, M: newMap(false, 0), cached: map[int]bool{}},
 	}
 	w.emit(newEv("reset", w.h, w.i))
 	w.flush()
@@ -301,6 +310,10 @@ func (w *driveWorld) run(maxN, blocks int) {
 			}
 			w.observe()
 			w.holdEvent()
+			w.partialOps()
+			if len(w.fails) > 0 {
+				return
+			}
 			w.proveSome()
 			w.flush()
 		}
@@ -387,30 +400,72 @@ func (w *driveWorld) block(maxN int) {
 	for s := range w.live {
 		saved.live[s] = true
 	}
+	prem := [][]any{}
+	// proofs (from the real prover, in the state before the block) of the targets the
+	// "free" partial forests do not remember yet
+	needProof := map[string]utreexo.Proof{}
+	for _, in := range w.insts {
+		if in.Kind == KMapPart && strings.HasPrefix(in.Name, "map.free") {
+			var need []int
+			for _, s := range d {
+				if !in.cached[s] {
+					need = append(need, s)
+				}
+			}
+			if len(need) > 0 && len(need) != len(d) {
+				pr, err := w.insts[0].P.Prove(w.hashes(need))
+				if err != nil {
+					w.fail([]string{"C02"}, "pollard", "prove.error", fmt.Sprintf("Prove(%v) failed: %v", need, err))
+					return
+				}
+				needProof[in.Name] = pr
+			}
+		}
+	}
 	for _, in := range w.insts {
 		saved.cached = append(saved.cached, copyCached(in.cached))
 		var err error
 		switch in.Kind {
 		case KMapPart:
-			if len(d) > 0 {
-				if err = in.M.Verify(dels, proof, true); err != nil {
+			// the leaves to delete must be remembered: verify (with remember) all of
+			// them again, or - the "free" instances - only those not remembered yet
+			need := d
+			if strings.HasPrefix(in.Name, "map.free") {
+				need = nil
+				for _, s := range d {
+					if !in.cached[s] {
+						need = append(need, s)
+					}
+				}
+			}
+			if len(need) > 0 {
+				np := proof
+				nh := dels
+				if len(need) != len(d) {
+					nh = w.hashes(need)
+					np = needProof[in.Name]
+				}
+				if err = in.M.Verify(nh, np, true); err != nil {
 					err = fmt.Errorf("Verify(remember): %v", err)
 					break
 				}
+				w.pop(in, "vrem", need)
 			}
 			lv := make([]utreexo.Leaf, k)
+			pslots := []int{}
 			for i := range lv {
 				lv[i] = utreexo.Leaf{Hash: adds[i], Remember: w.rng.Intn(2) == 0}
 				if lv[i].Remember {
-					in.cached[int(w.n)+i] = true
+					pslots = append(pslots, int(w.n)+i)
 				}
 			}
-			for _, s := range d {
-				in.cached[s] = true // remembered by the verification, then deleted
-			}
+			prem = append(prem, []any{in.Name, pslots})
 			err = in.M.Modify(lv, dels, proof)
 			for _, s := range d {
 				delete(in.cached, s)
+			}
+			for _, s := range pslots {
+				in.cached[s] = true
 			}
 		default:
 			err = in.acc().Modify(leaves, dels, proof)
@@ -423,7 +478,7 @@ func (w *driveWorld) block(maxN int) {
 	}
 	w.stack = append(w.stack, saved)
 	m := newEv("mod", w.h, w.i)
-	m.D, m.K, m.Rem = d, k, remSlots
+	m.D, m.K, m.Rem, m.Prem = d, k, remSlots, prem
 	w.emit(m)
 	for _, s := range d {
 		delete(w.live, s)
@@ -451,18 +506,18 @@ func (w *driveWorld) undo() {
 			return
 		}
 		if in.Kind == KMapPart {
-			c := sv.cached[idx]
-			// whatever was remembered since (and existed before) stays remembered
+			// as in Partial.tla: what it remembers of the leaves that existed before the
+			// block, plus the leaves the block deleted (they come back remembered)
 			for s := range in.cached {
-				if uint64(s) < sv.n {
-					c[s] = true
+				if uint64(s) >= sv.n {
+					delete(in.cached, s)
 				}
 			}
 			for _, s := range sv.d {
-				c[s] = true
+				in.cached[s] = true
 			}
-			in.cached = c
 		}
+		_ = idx
 	}
 	w.lcLossy = false
 	if !w.lcBroken {
@@ -513,6 +568,127 @@ func (w *driveWorld) observe() {
 			pe.Pos = append(pe.Pos, [3]uint64{uint64(s), uint64(ri.Row), ri.Idx})
 		}
 		w.emit(pe)
+	}
+}
+
+// pop records that a partial forest was asked to remember or forget leaves.
+func (w *driveWorld) pop(in *Inst, op string, slots []int) {
+	e := newEv("pop", w.h, w.i)
+	e.Inst, e.Op, e.S = in.Name, op, append([]int{}, slots...)
+	w.emit(e)
+	for _, s := range slots {
+		if op == "prune" {
+			delete(in.cached, s)
+		} else if w.live[s] {
+			in.cached[s] = true
+		}
+	}
+}
+
+// partialOps: the "free" partial forests prune, ingest and verify-with-remember
+// random sets of leaves between blocks; then every partial forest is dumped.
+func (w *driveWorld) partialOps() {
+	lv := w.liveSorted()
+	for _, in := range w.insts {
+		if in.Kind != KMapPart {
+			continue
+		}
+		if strings.HasPrefix(in.Name, "map.free") {
+			for r := 0; r < 2; r++ {
+				switch w.rng.Intn(4) {
+				case 0: // forget some of what it remembers, and something it does not
+					var s []int
+					for x := range in.cached {
+						if w.rng.Intn(2) == 0 {
+							s = append(s, x)
+						}
+					}
+					sort.Ints(s)
+					if w.n > 0 && w.rng.Intn(3) == 0 {
+						s = append(s, w.rng.Intn(int(w.n)))
+					}
+					if len(s) == 0 {
+						continue
+					}
+					if err := in.M.Prune(w.hashes(s)); err != nil {
+						w.fail([]string{"C09"}, in.Name, "error", fmt.Sprintf("Prune(%v) failed: %v", s, err))
+						return
+					}
+					w.calls++
+					w.pop(in, "prune", s)
+				case 1, 2: // remember some live leaves (verified, or ingested unverified)
+					if len(lv) == 0 {
+						continue
+					}
+					var s []int
+					for _, x := range lv {
+						if w.rng.Intn(4) == 0 {
+							s = append(s, x)
+						}
+					}
+					if len(s) == 0 {
+						s = []int{lv[w.rng.Intn(len(lv))]}
+					}
+					hs := w.hashes(s)
+					pr, err := w.insts[0].P.Prove(hs)
+					if err != nil {
+						w.fail([]string{"C02"}, "pollard", "prove.error", fmt.Sprintf("Prove(%v) failed: %v", s, err))
+						return
+					}
+					op := "vrem"
+					if w.rng.Intn(2) == 0 {
+						op = "ingest"
+						err = in.M.Ingest(hs, pr)
+					} else {
+						err = in.M.Verify(hs, pr, true)
+					}
+					w.calls++
+					if err != nil {
+						w.fail([]string{"C09"}, in.Name, "error", fmt.Sprintf("%s(%v) failed: %v", op, s, err))
+						return
+					}
+					w.pop(in, op, s)
+				}
+			}
+		}
+		// dump
+		in := in
+		type nd struct {
+			pos uint64
+			h   Hash
+		}
+		var nodes []nd
+		in.M.Nodes.ForEach(func(pos uint64, lf utreexo.Leaf) error {
+			nodes = append(nodes, nd{pos, lf.Hash})
+			return nil
+		})
+		var ch []Hash
+		in.M.CachedLeaves.ForEach(func(h Hash, pos uint64) error {
+			ch = append(ch, h)
+			return nil
+		})
+		T := in.M.TotalRows
+		name := in.Name
+		w.emitLazy(func(e *driveEvent) {
+			e.Inst, e.Partial = name, true
+			for _, h := range ch {
+				t := w.sy.T(h)
+				slot := -1
+				if len(t) > 1 && t[0] == 'L' {
+					slot, _ = strconv.Atoi(t[1:])
+				}
+				e.Cached = append(e.Cached, slot)
+			}
+			sort.Ints(e.Cached)
+			sort.Slice(nodes, func(a, b int) bool { return nodes[a].pos < nodes[b].pos })
+			for _, x := range nodes {
+				ri, ok := dec(x.pos, T)
+				if !ok {
+					ri = RI{255, x.pos}
+				}
+				e.Nodes = append(e.Nodes, []any{uint64(ri.Row), ri.Idx, w.sy.T(x.h)})
+			}
+		}, "stored")
 	}
 }
 
